@@ -534,6 +534,15 @@ class TreeGen(Gen):
                                 "_p": prefix + [f["n"], i]})
         return out
 
+    def _has_list(self, cdef):
+        by_name = {c["name"]: c for c in self.classes}
+        for f in cdef["fields"]:
+            if f["k"] in ("l", "le"):
+                return True
+            if f["k"] in ("o", "lo") and self._has_list(by_name[f["c"]]):
+                return True
+        return False
+
     def make_class(self, level):
         rng, ft = self.rng, self.feats
         name = "K%d" % self._n
@@ -558,8 +567,11 @@ class TreeGen(Gen):
                 c = rng.choice(lower)
                 fields.append({"n": "o%d" % i, "k": "o", "c": c["name"],
                                "r": not (ft["nonrand_sub"] and rng.random() < 0.25)})
-            if ft["objlists"] and rng.random() < 0.5:
-                c = rng.choice(lower)
+            # (element classes hold no scalar list, directly or below: a list
+            # element reached through a list index cannot be referenced)
+            nolist = [c for c in lower if not self._has_list(c)]
+            if ft["objlists"] and nolist and rng.random() < 0.5:
+                c = rng.choice(nolist)
                 fields.append({"n": "ol0", "k": "lo", "c": c["name"], "r": True,
                                "sz": rng.randint(1, 3)})
         cdef = {"name": name, "fields": fields, "blocks": [], "_level": level}
